@@ -27,12 +27,13 @@ macro_rules! int_accessor {
                 IntItem::Value { v, hlen } => {
                     if (<$t>::MIN as i128) <= v && v <= (<$t>::MAX as i128) {
                         match &r {
-                            Ok(x) => { assert!(*x as i128 == v); assert!(p == hlen) }      // equal value, exact consumption
-                            Err(_) => assert!(false)                                       // representable => accepted
+                            Ok(x) => { assert!(*x as i128 == v, "decoded value differs from the mathematical value of the head");
+                                       assert!(p == hlen, "position is not the end of the integer head") }
+                            Err(_) => assert!(false, "a value representable in the requested type was rejected")
                         }
                     } else {
                         match &r {
-                            Ok(_) => assert!(false),                                       // never wraps or truncates
+                            Ok(_) => assert!(false, "a value NOT representable in the requested type was accepted (wrap / truncation)"),
                             Err(_) => {}
                         }
                     }
@@ -40,8 +41,8 @@ macro_rules! int_accessor {
                 // a strict prefix of an integer item never succeeds; when some completion of it encodes a value
                 // of the requested type the error class is end-of-input (C04, truncation clause)
                 IntItem::Truncated => match &r {
-                    Ok(_) => assert!(false),
-                    Err(e) => if trunc_int_completable(buf, <$t>::MIN as i128, <$t>::MAX as i128) { assert!(e.is_end_of_input()) }
+                    Ok(_) => assert!(false, "a strict prefix of an integer item decoded successfully"),
+                    Err(e) => if trunc_int_completable(buf, <$t>::MIN as i128, <$t>::MAX as i128) { assert!(e.is_end_of_input(), "truncated integer item: error class is not end-of-input") }
                 },
                 IntItem::NotInt => assert!(r.is_err()),
             }
